@@ -541,6 +541,7 @@ def run(ctx):
 def search(ctx):
     rng = ctx.rng
     cases = [random_case(rng, big=rng.random() < 0.5) for _ in range(30000)]
+    prefetch(cases)
     ctx.check_oracle("search/iter", cases, impl_iter, oracle_iter)
 
 
